@@ -107,6 +107,13 @@ func retReloadMode() {
 		before, ok1 := a.finishedJobs()
 		time.Sleep(settle)
 		after, ok2 := a.finishedJobs()
+		if walk[2] == "keep1" {
+			// a slow machine: give the persist loop up to one more interval before more than one finished job counts as kept
+			for extra := 0; ok2 && len(after) > 1 && extra < 12; extra++ {
+				time.Sleep(300 * time.Millisecond)
+				after, ok2 = a.finishedJobs()
+			}
+		}
 		a.Stop()
 		rec["first_change_seen"], rec["second_change_seen"] = seen1, seen2
 		rec["finished_before"], rec["finished_after"] = len(before), len(after)
